@@ -183,4 +183,3 @@ func cmdFn(args []string) {
 	fmt.Printf("total %.1fs, solver stats %v\n", time.Since(t0).Seconds(), s.Stats)
 }
 
-func cmdCheck(args []string) int { fmt.Println("check: not built yet"); return 2 }
